@@ -68,6 +68,8 @@ class Scheduler:
         self.error = None
         self.steps = 0
         self.preempt_count = 0
+        self.chooser = None            # optional: (sched, me, choices) -> index, used beyond the prefix (conformance replay)
+        self.allow_idle_polls = False  # conformance mode: a timed poll may find nothing any number of times
 
     # ---- thread management -----------------------------------------------------------------------
     def spawn(self, name, fn, proc=None):
@@ -162,6 +164,10 @@ class Scheduler:
                 if self.state_hook is not None:
                     if self.state_hook(self, me, choices) == "prune":
                         self._abort("pruned")
+                if self.chooser is not None:
+                    k = self.chooser(self, me, choices)
+                    if k is None:
+                        self._abort("stopped")
             self.trace.append(Point(choices, k, me_enabled, me.tid if me is not None else None))
             if me_enabled and k != 0:
                 self.preempt_count += 1
@@ -238,7 +244,7 @@ class VQueue:
         dg = stack_digest(me.thread)
         changed = dg != getattr(me, "last_empty_digest", None)
         nowait = (not block) or timeout == 0
-        s.point(("poll", self.name), enabled=lambda: bool(self.pipe) or s.progress or changed or nowait)
+        s.point(("poll", self.name), enabled=lambda: bool(self.pipe) or s.progress or changed or nowait or s.allow_idle_polls)
         if self.pipe:
             item = self.pipe.popleft()
             me.obs.append(("got", _item_id(item)))
